@@ -120,6 +120,13 @@ CLAIMED = {
         "The wire-level history property (never addressing a retired ID) is declined as such; the structural conditions above are its necessary conditions.",
         "DESIGN.md#c18",
     ),
+    "C19": (
+        "other",
+        "writer enumeration and shape checks for the server's routing table, CFG reachability (no path from the retry branch to QuicConnection(...) avoids validate_token's normal return; handlers installed before the first delivery), slot / completion ordering of every future the adapter creates (created where, stored where, cleared before completion, completed by which event branches, awaited through shield), post-dominance of the receive -> events -> transmit cycle and of timer re-arming",
+        "Every adapter callback is synchronous, so each is atomic on the single-threaded loop; the rules decide what then holds at callback boundaries for every callback order: who may change the routing table and that termination removes every entry of the protocol, that address validation gates state creation, that each waiter has a slot which both its success event and termination complete exactly once (and cannot be created after termination), and that every input is followed by event processing and a transmit that re-arms the timer.",
+        "Byte-exact stream transfer under real interleavings inherits C01's declined clauses; the event loop and asyncio streams are the trusted base.",
+        "DESIGN.md#c19",
+    ),
 }
 
 NOT_APPLICABLE = {
